@@ -353,7 +353,7 @@ func genC06(t *rapid.T) c06Case {
 }
 
 func TestVerifC06Forwarding(t *testing.T) {
-	u := vk.Unit{Property: "C06", Name: "c06.forwarding", Quick: 260, Thorough: 6000,
+	u := vk.Unit{Property: "C06", Name: "c06.forwarding", Quick: 480, Thorough: 6000,
 		Rule: "generated bundles (all endpoint forms, flag combinations, 0..5 extension blocks incl. previous-node, age and unknown types with every block-flag combination, CRC mix, zero / non-zero creation time) x hop (count, limit) incl. (0,0),(k,k),(254,255),(255,255) x residence 0/30/300/1500 ms (real sleeps) x lifetime 1 h or a few hundred ms x 0..2 failed transmissions before the successful one x routing algorithm; the bytes serialised inside the scripted convergence layer are parsed with the independent reader and diffed block by block against the accepted encoding (primary block and payload byte-identical, hop count +1 on every attempt, previous node = this node, age growth inside the bracket of harness clock readings, unsupported remove-flagged blocks gone, nothing invented); refusal cases: never transmitted and dropped from the store; non-trivial = bundle with a hop-count / age / previous-node block that was transmitted, or a refusal case; distinct by case hash"}
 	vk.Check(t, u, genC06, c06Body)
 }
